@@ -100,6 +100,9 @@ def enumerate_lists(tier, rng):
     for _ in range(n2):
         n = rng.choice([2, 2, 3])
         lists.append([rng.choice(legal if rng.random() < 0.9 else single) for _ in range(n)])
+    L = lambda s_: [(ch, "lit") for ch in s_]
+    lists += [[L("v{2}")], [L("a{1,2}b")], [L("x{,3}")], [L("{2}")], [L("a{2}") + [("*", "star")]], [L("a+b")], [L("a^b$")], [L("a.b")],
+              [L("data/v{2}/") + [("*", "star")]]]
     lists += [[[("a", "lit")], [("a", "lit"), ("*", "star")]],
               [[("a", "lit"), ("/", "lit"), ("a", "lit")], [("a", "lit"), ("/", "lit"), ("*", "star")]]]
     return lists
@@ -305,6 +308,10 @@ def bounded(ctx, real, rng):
                 ops.append(["set files", i, gs])
             else:
                 name = pending.pop(0) if pending else rng.choice(names)
+                if not pending and rng.random() < 0.15 and any(m for m in model):
+                    # a name that is, character for character, the stored text of a pattern list or of one pattern
+                    gs_ = rng.choice([m for m in model if m])
+                    name = rng.choice([" ".join(gs_), rng.choice(gs_)])
                 ops.append(["find_files_paragraph", name])
                 evals += 1
                 must_raise = any(m is not None and illegal(m) for m in model)
